@@ -696,6 +696,33 @@ class Sym:
             return [(s, bool(v[2]))]
         if v[0] == "not":
             return [(s2, not r) for s2, r in self.fork_bool(s, v[1])]
+        if v[0] == "eq":
+            # structural equality of tuples / enum values: componentwise (`Some((a, b)) == Some((c, d))` is `a == c && b == d`)
+            comps = None
+            l_, r_ = v[1], v[2]
+            if l_[0] == "tuple" and r_[0] == "tuple" and len(l_[1]) == len(r_[1]):
+                comps = list(zip(l_[1], r_[1]))
+            elif l_[0] == "adt" and r_[0] == "adt" and l_[1] == r_[1]:
+                if l_[2] != r_[2]:
+                    return [(s, False)]
+                dl, dr = dict(l_[3]), dict(r_[3])
+                if set(dl) == set(dr):
+                    comps = [(dl[k_], dr[k_]) for k_ in sorted(dl)]
+            if comps is not None:
+                out, eq_so_far = [], [s]
+                for a_, b_ in comps:
+                    nxt = []
+                    for s0 in eq_so_far:
+                        if a_ == b_:
+                            nxt.append(s0)
+                            continue
+                        for s1, r1 in self.fork_bool(s0, ("eq", a_, b_)):
+                            if r1:
+                                nxt.append(s1)
+                            else:
+                                out.append((s1, False))
+                    eq_so_far = nxt
+                return [(s0, True) for s0 in eq_so_far] + out
         atom = v if v[0] in ("is", "eq", "lt", "empty") else ("bool", v)
         out = []
         s1 = s.with_cond(atom, True)
